@@ -78,10 +78,15 @@ def attempt(sb, obj, sink):
             dump(obj, str(target))
         elif sink.endswith("-path"):
             dump(obj, target)
-        elif sink.endswith("-fileobj"):
-            # an open file object positioned after some existing bytes
+        elif "-fileobj" in sink:
+            # an open file object on a file with existing bytes, positioned at its end, its start or in the middle
             with open(target, "r+b" if sink.startswith("existing") else "w+b") as fh:
                 fh.seek(0, 2)
+                size_before = fh.tell()
+                if sink.endswith("-start"):
+                    fh.seek(0)
+                elif sink.endswith("-middle"):
+                    fh.seek(size_before // 2)
                 pos = fh.tell()
                 try:
                     dump(obj, fh)
@@ -89,7 +94,7 @@ def attempt(sb, obj, sink):
                     after = fh.tell()
                     fh.seek(0)
                     content = fh.read()
-                    print(json.dumps(dict(pos=pos, after=after, size=len(content))), file=open(str(sb.root / "fileobj.json"), "w"))
+                    print(json.dumps(dict(pos=pos, after=after, size=len(content), size_before=size_before)), file=open(str(sb.root / "fileobj.json"), "w"))
         elif sink == "bytesio":
             b = io.BytesIO(b"prefix")
             b.seek(0, 2)
@@ -104,7 +109,8 @@ def attempt(sb, obj, sink):
     return code, res, before, after, target
 
 
-SINKS = ["existing-str", "existing-path", "new-str", "new-path", "existing-fileobj", "new-fileobj", "bytesio", "dumps"]
+SINKS = ["existing-str", "existing-path", "new-str", "new-path", "existing-fileobj", "existing-fileobj-start", "existing-fileobj-middle",
+         "new-fileobj", "bytesio", "dumps"]
 
 
 def run(ctx):
@@ -172,11 +178,11 @@ def run(ctx):
                     meta = tuple(sb.rel(str(sb.root / "fileobj.json")))
                     changed = {k for k in set(before["files"]) | set(after["files"])
                                if before["files"].get(k) != after["files"].get(k) and k != meta}
-                    if sink.endswith("fileobj"):
+                    if "fileobj" in sink:
                         info = json.loads(after["files"][meta])
-                        if info["after"] != info["pos"] or info["size"] != info["pos"]:
-                            ofails.append((f"fileobj-received-bytes: the open file object was at {info['pos']} and is at {info['after']} "
-                                           f"with {info['size']} bytes after the failed dump", rep))
+                        if info["after"] != info["pos"] or info["size"] != info["size_before"]:
+                            ofails.append((f"fileobj-received-bytes: the open file object was at {info['pos']} of {info['size_before']} bytes and is at "
+                                           f"{info['after']} of {info['size']} bytes after the failed dump", rep))
                         changed.discard(tkey)            # created by the harness itself ("w+b"), content checked through `info`
                         if sink.startswith("existing") and after["files"].get(tkey) != OLD:
                             ofails.append(("existing-file-changed: bytes of the existing destination changed (file object sink)", rep))
@@ -188,7 +194,7 @@ def run(ctx):
                         what = "existing-file-changed" if tkey in before["files"] else "file-created"
                         ofails.append((f"{what}: after the failed dump to {sink} these paths differ: {sorted(changed)[:3]}", rep))
                     wrote = [e for e in res["events"] if e[0] != "midwrite" and (len(e) < 2 or tuple(e[1]) != meta)]
-                    if wrote and not sink.endswith("fileobj"):
+                    if wrote and "fileobj" not in sink:
                         # T2: the model's trace for a failed dump is empty
                         mism.append(dict(what=f"file operations during a failed dump: {wrote[:3]} (model: none)", **rep))
                     if len(samples) < 2:
